@@ -297,8 +297,12 @@ fn c05(quick: bool) -> Vec<Harness> {
         (0xdead_beef_0000, 5, CQE_F_SKIP),
     ];
     for &c0 in WRAP_C0 {
-        for cq in [2u32, 4] {
-            if quick && cq == 4 && !(c0 == 0 || c0 == 0xffff_fffe) {
+        // (8: a completion queue that is not twice the submission queue.)
+        for cq in [2u32, 4, 8] {
+            if quick && cq >= 4 && !(c0 == 0 || c0 == 0xffff_fffe) {
+                continue;
+            }
+            if cq == 8 && c0 != 0xffff_fffe {
                 continue;
             }
             let mut cfg = Cfg::base("C05");
@@ -452,6 +456,19 @@ fn c04(quick: bool) -> Vec<Harness> {
             v.push(ops_harness(&format!("sq{sq}-c0={c0:#x}"), "C04", cfg, bounds(d(9, 12), d(2, 3), 3)));
         }
     }
+    for c0 in [0u32, 0xffff_fffe] {
+        // "Every ring size": the largest one the kernel grants (IORING_SETUP_CLAMP).
+        let mut cfg = Cfg::base("C04");
+        cfg.clamp = true;
+        cfg.c0_sq = c0;
+        cfg.kinds = vec![Kind::WriteVec];
+        cfg.max_ops = 3;
+        cfg.errors = false;
+        cfg.shorts = false;
+        cfg.allow_fresh = false;
+        cfg.report = vec!["C04"];
+        v.push(ops_harness(&format!("clamped-max-size-c0={c0:#x}"), "C04", cfg, bounds(d(8, 10), d(2, 3), 3)));
+    }
     v
 }
 
@@ -459,7 +476,7 @@ fn c07(quick: bool) -> Vec<Harness> {
     let mut v = Vec::new();
     let d = |q: usize, t: usize| if quick { q } else { t };
     use Kind::*;
-    for k in [OpenFile, OpenDirect, Socket, SocketDirect, Accept, AcceptNoAddr, MultishotAccept, Pipe, PipeDirect, ToDirect] {
+    for k in [OpenFile, OpenDirect, Socket, SocketDirect, Accept, AcceptNoAddr, MultishotAccept, Pipe, PipeDirect, ToDirect, OpenTemp, OpenTempDirect] {
         for sq in [1u32, 4] {
             let mut cfg = drop_cfg("C07", vec![k]);
             cfg.sq = sq;
@@ -710,7 +727,12 @@ fn c12(quick: bool) -> Vec<Harness> {
             ]);
         }
         for (acts, ring_polls, sq, sqpoll) in sets {
-            let mut h = c12_threads(C12ThCfg { acts, ring_polls, sq, sqpoll, prop: "C12" }, pb);
+            let mut h = c12_threads(C12ThCfg { acts: acts.clone(), ring_polls, sq, sqpoll, prop: "C12", idle_at_start: false }, pb);
+            if sqpoll && acts.len() == 1 {
+                let mut h2 = c12_threads(C12ThCfg { acts, ring_polls, sq, sqpoll, prop: "C12", idle_at_start: true }, pb);
+                h2.cap_s = if quick { 0 } else { 600 };
+                th.push(th_harness("C12", h2));
+            }
             h.cap_s = if quick { 0 } else { 600 };
             th.push(th_harness("C12", h));
         }
@@ -861,7 +883,7 @@ fn c11(quick: bool) -> Vec<Harness> {
         // wake() racing with the Ring being dropped on another thread ("harmless").
         use crate::thworld::{C12Act, C12ThCfg, c12_threads};
         for (acts, ring_polls, sq, sqpoll) in [(vec![C12Act::Wake], 0usize, 2u32, false), (vec![C12Act::Wake, C12Act::Wake], 1, 1, false), (vec![C12Act::Wake], 0, 2, true)] {
-            v.push(th_harness("C11", c12_threads(C12ThCfg { acts, ring_polls, sq, sqpoll, prop: "C11" }, pb)));
+            v.push(th_harness("C11", c12_threads(C12ThCfg { acts, ring_polls, sq, sqpoll, prop: "C11", idle_at_start: false }, pb)));
         }
     }
     v
@@ -880,6 +902,7 @@ fn c09(quick: bool) -> Vec<Harness> {
         Allocate, MemAdvise, SpliceTo, SpliceFrom, SendToVectored, OpenTemp, Pollable, ReceiveSignal, ReceiveSignals,
         RecvFromPool, OpenExtract, CreateDirExtract, RenameExtract, RemoveExtract, ReadVecFrom, WriteVecAt, ReadVectoredFrom,
         WriteVectoredAt, RecvPeek, RecvPoolWaitAll, RecvFromPeek, SendMore, SendZcMore, SendToMore, MultishotRecvPeek,
+        SpliceToAt, SpliceFromAt,
     ];
     for k in kinds {
         let mut cfg = Cfg::base("C09");
